@@ -248,3 +248,16 @@ func isGenericTemplate(f *ssa.Function) bool {
 	}
 	return false
 }
+
+// pkgByShort: the module package with that short path ("dsl", "cpp/binary", ...), or nil.
+func (w *World) pkgByShort(short string) *types.Package {
+	if short == "" {
+		return nil
+	}
+	for path, p := range w.PkgByID {
+		if shortPkg(path) == short && p.Types != nil {
+			return p.Types
+		}
+	}
+	return nil
+}
